@@ -131,3 +131,13 @@ Example validate_examples :
   (exists t, validate_input [mkE 0 1 Hold; mkE 1 1 Hold; mkE 2 3 Linear] = OK (inr t)) /\
   (exists t, validate_input [mkE 0 1 Hold; mkE 1 1 Hold; mkE 2 3 Jump] = OK (inr t)).
 Proof. vm_compute. repeat split; eexists; reflexivity. Qed.
+
+(* the de-duplication of _validate_input is NOT sample preserving at t = duration when three entries share the final
+   time (known finding C08-table-dedup-final-triple; confirmed on the real code) *)
+Lemma from_table_dedup_refuted :
+  exists c tab w, from_table c tab = OK w /\ table_valid tab = true /\ zdiv (WTable c tab) c = false /\
+    oQeqb (sample w c (last_t tab)) (Some 1) = true /\ oQeqb (sample (WTable c tab) c (last_t tab)) (Some 2) = true.
+Proof.
+  exists 1%N, [mkE 0 0 Hold; mkE 1 1 Hold; mkE 1 2 Hold; mkE 1 3 Hold].
+  eexists. vm_compute. repeat split; reflexivity.
+Qed.
